@@ -222,9 +222,10 @@ def syncStep (H : AE.Hasher) (cfg : Cfg) (c : Sim) (a b : Nat) : Sim :=
         log := c.log ++ absorbedOf b sa ++ absorbedOf a sb }
   | _, _ => c
 
-/-- the pairs of `run_full_anti_entropy`, in its order -/
+/-- the pairs of `run_full_anti_entropy`, in its order:
+    `for i in 0..n { for j in (i + 1)..n { … } }` -/
 def allPairs (n : Nat) : List (Nat × Nat) :=
-  (List.range n).flatMap (fun i => ((List.range n).filter (fun j => i < j)).map (fun j => (i, j)))
+  (List.range n).flatMap (fun i => (List.range' (i + 1) (n - (i + 1))).map (fun j => (i, j)))
 
 def step (H : AE.Hasher) (cfg : Cfg) (c : Sim) : SEv → Sim
   | .exec i op =>
